@@ -48,7 +48,7 @@ def _catalog_runs(chk, runs, pool):
     if chk.quick:
         plans = [("{1,2,3}", 1, True), ("{1,2,3}", 1, False)]
     else:
-        plans = [("{1,2,3}", 2, True), ("{1,2,3,4}", 1, True), ("{1,2,3}", 2, False)]
+        plans = [("{1,2,3}", 2, True), ("{1,2,3,4}", 1, True), ("{1,2,3}", 1, False)]
     st = tr = 0
 
     def one(i):
